@@ -20,6 +20,26 @@ def _assigned_names(stmts: List[ast.stmt]) -> Set[str]:
     return out
 
 
+def _at_least_one(e: ast.AST, f: Func) -> bool:
+    """`1 + width` / `width + 1` / `width` where every assignment of the local in the function is an int constant
+    that keeps the sum >= 1."""
+    def lower(x: ast.AST) -> Optional[int]:
+        if isinstance(x, ast.Constant) and isinstance(x.value, int) and not isinstance(x.value, bool):
+            return x.value
+        if isinstance(x, ast.Name):
+            vals = [a.value for a in f.own_nodes() if isinstance(a, ast.Assign) and any(isinstance(t, ast.Name) and t.id == x.id for t in a.targets)]
+            if vals and all(isinstance(v, ast.Constant) and isinstance(v.value, int) and not isinstance(v.value, bool) for v in vals) and not any(isinstance(a, ast.AugAssign) and isinstance(a.target, ast.Name) and a.target.id == x.id for a in f.own_nodes()):
+                return min(v.value for v in vals)
+            return None
+        if isinstance(x, ast.BinOp) and isinstance(x.op, ast.Add):
+            l, r = lower(x.left), lower(x.right)
+            return None if l is None or r is None else l + r
+        return None
+
+    v = lower(e)
+    return v is not None and v >= 1
+
+
 def classify_loop(f: Func, loop: ast.While, cfg: CFG) -> Tuple[Optional[str], str]:
     """(shape, detail) or (None, reason)."""
     test = loop.test
@@ -61,6 +81,8 @@ def classify_loop(f: Func, loop: ast.While, cfg: CFG) -> Tuple[Optional[str], st
         def steps(a, v=v):
             if isinstance(a, ast.AugAssign) and isinstance(a.target, ast.Name) and a.target.id == v:
                 if isinstance(a.op, (ast.Add, ast.Sub)) and isinstance(a.value, ast.Constant) and isinstance(a.value.value, int) and a.value.value > 0:
+                    return True
+                if isinstance(a.op, (ast.Add, ast.Sub)) and _at_least_one(a.value, f):
                     return True
                 if isinstance(a.op, (ast.FloorDiv, ast.RShift, ast.LShift)):
                     return True
